@@ -262,7 +262,7 @@ pub fn judge(case: &Case, l: &mut Local, peers: Option<&[(String, Observed)]>) {
     }
 }
 
-fn rewrite(text: &str, f72: Option<&str>, mur: Option<&str>, flag: Option<&str>) -> Option<String> {
+pub fn rewrite(text: &str, f72: Option<&str>, mur: Option<&str>, flag: Option<&str>) -> Option<String> {
     let blocks = tok::split_blocks(text)?;
     let mut out = String::new();
     let mut wrote3 = false;
